@@ -108,3 +108,19 @@ Proof.
   destruct y as [[[s0 c0]|]|e0]; inversion Ex; subst.
   pose proof (add_tm_result_reads d r s c) as P. rewrite Ea in P. cbn [fst] in P. apply P. reflexivity.
 Qed.
+
+(* non-vacuity: two telecommands; the answer to A's acceptance failure keeps completed = true and
+   follows A's later start report; the answer to B's start report is detached by remove_entry and
+   keeps the status B had, although B is registered again and accepted afterwards *)
+Example kept_example :
+  let ha := {| ver := 0; ptype := 1; shf := 1; apid := 5; sflags := 3; scount := 7; dlen := 0 |} in
+  let hb := {| ver := 1; ptype := 1; shf := 1; apid := 5; sflags := 3; scount := 7; dlen := 0 |} in
+  let rp h sub := HOp (AddTm {| rep_id := reqid_from_sp_header h; rep_sub := sub; rep_step := None |}) in
+  map (fun r => (k_completed r, k_live r, k_status r))
+      (snd (hrun [] [] [HOp (AddTc ha); HOp (AddTc hb); rp ha 2; rp hb 3; HCallerEdit; rp ha 3;
+                        HOp (RemoveEntry (reqid_from_sp_header hb)); HOp (AddTc hb); rp hb 1])) =
+  [(true, true, {| recvd := 1; acc := 0; sta := 1; step := -1; steps := []; comp := -1 |});
+   (false, false, {| recvd := 0; acc := -1; sta := 1; step := -1; steps := []; comp := -1 |});
+   (false, true, {| recvd := 1; acc := 0; sta := 1; step := -1; steps := []; comp := -1 |});
+   (false, true, {| recvd := 0; acc := 1; sta := -1; step := -1; steps := []; comp := -1 |})].
+Proof. vm_compute. reflexivity. Qed.
